@@ -1,5 +1,6 @@
 #!/bin/sh
-# offline build of the Lean models, lemmas, property theorems and the compiled model driver
+# offline build of the Lean models, lemmas, property theorems and the compiled model drivers
 cd "$(dirname "$0")/lean" || exit 2
 /venv/bin/python -c 'import sys; sys.path.insert(0, ".."); from harness import tables; print("tables:", tables.generate())' || exit 1
-lake build Pycel pycel_driver
+lake build Pycel || exit 1
+for d in $(sed -n 's/^name = "\(drv_c[0-9]*\)"/\1/p' lakefile.toml); do lake build "$d" || exit 1; done
